@@ -41,7 +41,7 @@ def gen(d, tier):
     nc = S.mk_cmd(b"+N", "wrn", [], scripts={"0n": [S.mk_step(d.pick([OK, ERR]))]})
     ev = S.mk_cmd(b"#E", "", [S.mk_var(INT, 1, RO, b"\x05")])
     ex = S.mk_cmd(b"#X", "rt", [], scripts={"1r": [S.mk_step(d.pick([HEX_OK, HEX_ERR, DATA_OK])) for _ in range(4)],
-                                            "1t": [S.mk_step(d.pick([HEX_OK, HEX_ERR, OK])) for _ in range(4)]})
+                                            "1t": [S.mk_step(d.pick([HEX_OK, HEX_ERR, OK, S.LIST, S.DATA_OK])) for _ in range(4)]})
     cmds = [hc, nc, ev, ex]
     inp = b""
     for _ in range(d.rng(1, 5)):
